@@ -26,7 +26,12 @@ func main() {
 	}
 	repo := os.Args[1]
 	want := map[string]string{}
+	localFiles := map[string]bool{}
 	for _, s := range os.Args[2:] {
+		if strings.HasPrefix(s, "locals:") {
+			localFiles[filepath.Join(repo, strings.TrimPrefix(s, "locals:"))] = true
+			continue
+		}
 		kv := strings.SplitN(s, "=", 2)
 		if len(kv) != 2 || (strings.Count(kv[0], ".") != 2 && strings.Count(kv[0], ".") != 1) {
 			fmt.Println("bad spec", s)
@@ -57,6 +62,7 @@ func main() {
 	}
 	edits := map[string]map[int]edit{}
 	used := map[string]bool{}
+	isParamOrResult := map[*types.Var]bool{}
 	specOf := func(o types.Object) (string, bool) {
 		if fn, isFn := o.(*types.Func); isFn && fn.Pkg() != nil {
 			// pkg.Type.method=new or pkg..func=new
@@ -77,6 +83,13 @@ func main() {
 				return nn, true
 			}
 			return "", false
+		}
+		// every local variable (not a parameter, result or field) declared in one of the files named with locals:
+		if lv, isV := o.(*types.Var); isV && len(localFiles) > 0 && !lv.IsField() && lv.Pkg() != nil && lv.Parent() != nil && lv.Parent() != lv.Pkg().Scope() && lv.Name() != "_" {
+			pos := fset.Position(lv.Pos())
+			if localFiles[pos.Filename] && !isParamOrResult[lv] {
+				return lv.Name() + "Lv", true
+			}
 		}
 		// pkg.Name=new: a package-level type or variable
 		switch x := o.(type) {
@@ -123,6 +136,44 @@ func main() {
 			}
 		}
 		return "", false
+	}
+	for _, p0 := range pkgs {
+		if p0.TypesInfo == nil {
+			continue
+		}
+		for _, o := range p0.TypesInfo.Defs {
+			if fn, ok := o.(*types.Func); ok {
+				sig := fn.Type().(*types.Signature)
+				for i := 0; i < sig.Params().Len(); i++ {
+					isParamOrResult[sig.Params().At(i)] = true
+				}
+				for i := 0; i < sig.Results().Len(); i++ {
+					isParamOrResult[sig.Results().At(i)] = true
+				}
+				if sig.Recv() != nil {
+					isParamOrResult[sig.Recv()] = true
+				}
+			}
+		}
+		// the variable of a type switch is one object per clause without a declaration of its own: left alone
+		for _, o := range p0.TypesInfo.Implicits {
+			if v, ok := o.(*types.Var); ok {
+				isParamOrResult[v] = true
+			}
+		}
+		for e, tv := range p0.TypesInfo.Types {
+			if fl, ok := e.(*ast.FuncLit); ok {
+				if sig, ok := tv.Type.(*types.Signature); ok {
+					_ = fl
+					for i := 0; i < sig.Params().Len(); i++ {
+						isParamOrResult[sig.Params().At(i)] = true
+					}
+					for i := 0; i < sig.Results().Len(); i++ {
+						isParamOrResult[sig.Results().At(i)] = true
+					}
+				}
+			}
+		}
 	}
 	seen := map[*packages.Package]bool{}
 	var visit func(p *packages.Package)
